@@ -514,6 +514,7 @@ func init() {
 			"concurrent requests are covered by C19's scenarios, not here"},
 		Rule: "(1) every daemon configuration x pod x failure pattern (every subset of <=4 of {ADD,DEL} x the pod's plugin types failing) on ADD;DEL, and the same with the failures lifted followed by two more DELs; (2) every history of 2..N requests over two containers " +
 			"(ADD/DEL for each) for 16 pod pairs x 3 failure patterns, and ADD;ADD;DEL;DEL for 25 pod pairs on a freshly started daemon each; each request's plugin invocations (command, type, container, interface, parsed CNI_ARGS, stdin incl. prevResult), HTTP outcome and state file are compared with the list-manipulation model; " +
+			"(3) requests for different containers as threads of the cooperative scheduler (points: plugin invocations, state files, locks, process-environment accesses; bounded preemptions): under every schedule each container's plugins receive what they receive when the request runs alone; " +
 			"distinct/non-trivial = distinct (configuration, failures, history, invocation sequence)",
 		Jobs: func(tier string) []Job {
 			maxLen := 3
@@ -524,6 +525,7 @@ func init() {
 			for s := 0; s < 8; s++ {
 				jobs = append(jobs, c12SingleJob(s, 8), c12PairJob(s, 8, maxLen))
 			}
+			jobs = append(jobs, c12ConcurrentJobs(tier)...)
 			return append(jobs, c12FreshJob())
 		}})
 	replayers["C12"] = replayDescOnly
